@@ -749,58 +749,75 @@ def r_omit_scope(cx):
     """`omit_fwd` / `omit_inv` given with a macro invocation end up in the globals of its body. They concern the body
     as a whole (the enclosing pipeline skips it), not the steps inside: every step reads its modifiers through
     chase(globals, locals), so an inherited one would make the inner steps skip themselves when the (inverted) body
-    runs in the other direction. In pipeline::new, every path to the construction of a step (the `next(&step)` call
-    in the loop over the steps) passes through the removal of both keys from the globals the steps are built from."""
+    runs in the other direction. In pipeline::new, the parameter frames of the steps are made by `next(step)` on a
+    RawParameters other than the constructor's own argument, from whose globals both keys have been removed before
+    (the removal dominates the place where the steps are built - a loop, or a closure handed to an iterator chain)."""
     c = pipeline_ctor(cx)
     f = cx.f.fn(c.path)
-    lp = None
-    nexts = []
-    for l in f.loops():
-        for bb, t in f.calls():
-            if bb in l.body and (f.callee(t) or "") == "op::raw_parameters::RawParameters::next":
-                lp = l
-                nexts.append(bb)
+    NEXTFN = "op::raw_parameters::RawParameters::next"
+    # sites where step frames are built: (block, root local of the RawParameters they are built from)
+    sites = []
+    for bb, t in f.calls():
+        if (f.callee(t) or "") != NEXTFN:
+            continue
+        pl = mir.op_place(t["args"][0])
+        if pl is None:
+            continue
+        root = _root_local_of(f, pl["l"])
+        if root == 1 or f.name_of_local.get(root) is None and mir.strip_refs(f.arg_terms(bb)[0]) == ("arg", 1):
+            continue        # parameters.next(..): the pipeline's own frame / the copy the steps are derived from
+        if f.innermost_loop(bb) is not None or True:
+            a1 = f.arg_terms(bb)[1] if len(f.arg_terms(bb)) > 1 else None
+            if a1 is not None and K._const_key(a1) is not None:
+                continue    # next("literal"): not a step
+            sites.append((bb, root))
+    for bb, i, st in f.all_stmts():
+        if st["k"] == "assign" and st["rv"]["k"] == "agg" and st["rv"].get("agg") == "closure":
+            cname = st["rv"].get("closure") or st["rv"].get("adt") or ""
+            v = f.rvalue(st["rv"], (bb, i))
+            cname = v[1][1] if v[0] == "agg" and isinstance(v[1], tuple) and v[1][0] == "closure" else cname
+            if cname and cx.f.has_fn(cname):
+                g = cx.f.fn(cname)
+                if any((g.callee(t2) or "") == NEXTFN for _, t2 in g.calls()):
+                    for o in st["rv"].get("ops", ()):
+                        pl = mir.op_place(o)
+                        if pl is not None:
+                            r = _root_local_of(f, pl["l"])
+                            if "RawParameters" in str(f.local_ty(r)) and r != 1:
+                                sites.append((bb, r))
     n = 0
-    if lp is None:
-        cx.ob("R-OMIT-SCOPE", "pipeline/steps", False, "anchor-missing: no loop over the steps calling RawParameters::next",
-              cx.where(f.d["span"]))
+    if not sites:
+        cx.ob("R-OMIT-SCOPE", "pipeline/steps", False,
+              "pipeline::new: no place found where the parameter frames of the steps are derived (by `next`) from a "
+              "RawParameters other than the constructor's own argument - the steps inherit the invocation's globals "
+              "as they are", cx.where(f.d["span"]))
+        cx.count("R-OMIT-SCOPE", "keys", 0)
         return
     rem = {}
     for bb, t in f.calls():
         if (f.callee(t) or "").endswith("BTreeMap::<K, V, A>::remove"):
             a = f.arg_terms(bb)
             k = K._const_key(a[1]) if len(a) > 1 else None
-            rem.setdefault(k, []).append((bb, a[0]))
+            pl = mir.op_place(t["args"][0])
+            rem.setdefault(k, []).append((bb, _root_local_of(f, pl["l"]) if pl is not None else None))
     for key in ("omit_fwd", "omit_inv"):
         n += 1
-        sites = rem.get(key, [])
-        ok = bool(sites)
-        why = "the key is never removed"
-        if ok:
-            # (1) on every path into the loop, (2) from the very value the steps are derived from
-            if lp.header in f.reach_from([0], avoid=tuple(b for b, _ in sites)):
+        rs = rem.get(key, [])
+        ok = True
+        why = ""
+        for (sb, root) in sites:
+            mine = [b for b, r in rs if r == root]
+            if not mine:
+                ok = False
+                why = "the key is never removed from the value the steps are built from"
+            elif sb in f.reach_from([0], avoid=tuple(mine)):
                 ok = False
                 why = "the removal is skipped on some path"
-            else:
-                recv_roots = set()
-                for bb in nexts:
-                    r = f.term(bb)["args"][0]
-                    pl = mir.op_place(r)
-                    if pl is not None:
-                        recv_roots.add(_root_local_of(f, pl["l"]))
-                rem_roots = set()
-                for bb, a0 in sites:
-                    pl = mir.op_place(f.term(bb)["args"][0])
-                    if pl is not None:
-                        rem_roots.add(_root_local_of(f, pl["l"]))
-                if not (recv_roots and recv_roots <= rem_roots):
-                    ok = False
-                    why = "the removal is applied to another value than the one the steps are built from"
         cx.ob("R-OMIT-SCOPE", "pipeline/%s" % key, ok,
               "the steps are built from globals from which `%s` has been removed" % key if ok else
               "pipeline::new hands the invocation's `%s` down to every step of the body (%s): a macro invoked with "
               "`inv %s` then skips its own steps from the inside when run in the other direction" % (key, why, key),
-              cx.where(f.term(nexts[0])["span"]))
+              cx.where(f.term(sites[0][0])["span"]))
     cx.count("R-OMIT-SCOPE", "keys", n)
 
 
